@@ -17,6 +17,14 @@ values are unselected because of an exception. Axis: element x form of the toler
 SelectContext) x the class of the exception (every class of builtins and lena.core derived from
 Exception and a class of the user's own: 74), judged by the same laws.
 
+Settings axis (mc/ref/c10_settings.py): every element documents context keys it reads or writes for
+the values it selects (output.duplicate_last_bin, output.filename / dirname / fileext / changed,
+output.template, histogram.to_graph, value, variable, bins ...).  Foreign values that CARRY these keys
+are enumerated as a product: carrier (why the value is unselected: data of another type - number,
+string, bytes, unknown object, another structure -, another file type, other bins, a disabling
+context) x fragment (which documented key, with values on both sides of the element's configuration),
+all B lists of one and of two such values, all A lists, all interleavings, judged by the same laws.
+
 Every flow is run through a fresh real element in a private directory and judged by the
 metamorphic relation run(interleave(A, B)) ~ interleave(run(A), B):
 
@@ -46,6 +54,7 @@ import lena.flow
 from mc.core import Result, result_violations
 from mc.instrument import scratch_dir
 from mc.ref import c10_alphabet as al
+from mc.ref import c10_settings as st
 
 freeze = al.canon
 
@@ -58,12 +67,20 @@ RULE = ("every (element configuration, list A of selected values, list B of fore
         "B are non-empty and A alone produces at least one output (a real interleaving of selected "
         "and foreign values) - in a decline configuration (the tolerant selector's test raises on the "
         "values it is not meant for) in addition the test must really have failed on a foreign value of "
-        "the flow; cases are distinct by construction of the enumeration")
+        "the flow; the B lists of the settings axis (foreign values = carrier x fragment of the "
+        "element's documented context keys) are enumerated and judged in the same way; cases are "
+        "distinct by construction of the enumeration")
 ASSUMPTIONS = [
     "foreign (unselected) values are chosen by the documented selection rule of each element: bare "
     "numbers, None, strings (not for Write), tuples that are not (data, context) pairs, pairs with "
     "empty / unrelated / disabling context (output.write, output.to_csv, histogram.to_graph False), "
     "output not a dictionary, other file types, foreign objects, histograms and graphs where not selected",
+    "settings axis: an unselected value may carry any of the context keys the element documents for "
+    "the values it selects (a number, a string, an unknown object, another structure, a value of "
+    "another file type or with a disabling context, with output.duplicate_last_bin, output.filename, "
+    "output.changed, output.template, histogram.to_graph True, value, variable ...); the keys mean "
+    "nothing for a value the element leaves alone. Not combined: a disabling carrier with the "
+    "fragment that sets the same key; a string or other iterable with a group key (MapGroup)",
     "a string whose context is malformed for Write (output not a dictionary) and a string with a "
     "group context for MapGroup are selected-but-malformed values and are outside the alphabet",
     "pdflatex / pdftoppm are replaced by a fake subprocess.Popen owned by the explorer (writes a digest "
@@ -96,12 +113,23 @@ def describe(tier):
                 "of selected values), |B| <= 3 (all 16 + 256 + 4096 ordered lists over the element's 16 "
                 "foreign values; LaTeXToPDF: |B| = 3 over its 8 most different foreign values, 512 "
                 "lists), all interleavings; LaTeXToPDF: all completion schedules of the fake converter "
-                "processes; " % _n_cfgs()) + _describe_decline(tier)
+                "processes; " % _n_cfgs()) + _describe_settings(tier) + _describe_decline(tier)
     return ("10 elements in %d configurations; |A| <= 2, |B| <= 2 over the element's 16 foreign values "
             "(all 16 + 256 lists) and |B| = 3 over its %d most different foreign values (%d lists), all "
             "interleavings; LaTeXToPDF: 3 of its 5 kinds of selected values and all completion schedules "
             "of the fake converter processes; " % (_n_cfgs(), al.SUBPOOL, al.SUBPOOL ** 3)) \
-        + _describe_decline(tier)
+        + _describe_settings(tier) + _describe_decline(tier)
+
+
+def _describe_settings(tier):
+    n1 = sum(len(st.pool(k, c, tier, 1)) for k in al.KINDS for c in al.configs(k))
+    n2 = sum(len(st.pool(k, c, tier, 2)) ** 2 for k in al.KINDS for c in al.configs(k))
+    return ("settings axis: in every configuration the foreign values that carry the element's "
+            "documented context keys (carrier: 4-5 ways of being unselected x fragment: 2-7 keys / "
+            "values per element; %d values in all), |A| <= 2, every B list of one such value and %s"
+            "(%d lists), all interleavings; "
+            % (n1, "every B list of two " if tier == "thorough" else
+               "every B list of two over the first %d carriers " % st.QUICK_CARRIERS_2, n2))
 
 
 def _describe_decline(tier):
@@ -163,8 +191,29 @@ def shards(tier):
                 for pre in itertools.product(pool, repeat=plen):
                     out.append({"kind": kind, "cfg": cfg, "blen": blen, "prefix": list(pre),
                                 "bound": "|B|<=%d" % blen})
+        if 1 <= blen <= SETTINGS_MAX_B:
+            out.extend(_setting_shards(blen, tier))
         if blen == _decline_max_b(tier):
             out.extend(_decline_shards(tier))
+    return out
+
+
+# the settings axis (mc/ref/c10_settings.py): foreign values that carry the settings the element reads.
+# One shard = one element configuration and all B lists of one value / all B lists with one first value
+SETTINGS_MAX_B = 2
+
+
+def _setting_shards(blen, tier):
+    out = []
+    for kind in al.KINDS:
+        for cfg in al.configs(kind):
+            pool = st.pool(kind, cfg, tier, blen)
+            if not pool:
+                continue
+            prefixes = [[]] if blen == 1 else [[b] for b in pool]
+            for pre in prefixes:
+                out.append({"kind": kind, "cfg": cfg, "blen": blen, "prefix": pre, "settings": 1,
+                            "bound": "|B|<=%d" % blen})
     return out
 
 
@@ -205,7 +254,10 @@ def b_lists(p, tier):
     kind, cfg, blen = p["kind"], p["cfg"], p["blen"]
     if blen == 0:
         return [()]
-    pool = al.b_pool_for(kind, cfg, blen, tier)
+    if p.get("settings"):
+        pool = st.pool(kind, cfg, tier, blen)
+    else:
+        pool = al.b_pool_for(kind, cfg, blen, tier)
     pre = tuple(p["prefix"])
     return [pre + rest for rest in itertools.product(pool, repeat=blen - len(pre))]
 
@@ -275,7 +327,7 @@ def execute(dirs, kind, cfg, a_names, b_names, pattern, plan):
         al.install_fake(env)
         el = al.build(kind, cfg)
         A = [al.make_a(kind, n) for n in a_names]
-        B = [al.make_b(n) for n in b_names]
+        B = [st.make_b(n) for n in b_names]
         ia = ib = 0
         flow_vals, flow_names = [], []
         for ch in pattern:
@@ -434,7 +486,7 @@ def judge(res, case, obs, ref, kind, cfg, all_none_plan):
     for how, k in problems:
         report("foreign-identity", {"how": how, "foreign": b_names[k]},
                "every member of B exactly once, in order",
-               {"how": how, "foreign": b_names[k]})
+               {"how": how, "foreign": st.cause_name(b_names[k])})
         break
     if not problems:
         for k in range(want_b):
@@ -443,14 +495,14 @@ def judge(res, case, obs, ref, kind, cfg, all_none_plan):
                        {"how": "missing", "foreign": b_names[k],
                         "outputs": [repr(r)[:80] for r, _, _ in obs["outs"]]},
                        "the very same object is yielded",
-                       {"how": "missing", "foreign": b_names[k]})
+                       {"how": "missing", "foreign": st.cause_name(b_names[k])})
                 break
 
     # no foreign value modified in place
     for k in range(len(b_names)):
         if obs["b_before"][k] != obs["b_after"][k]:
             report("foreign-unmutated", {"foreign": b_names[k], "after": obs["b_after"][k]},
-                   {"before": obs["b_before"][k]}, {"foreign": b_names[k]})
+                   {"before": obs["b_before"][k]}, {"foreign": st.cause_name(b_names[k])})
             break
 
     # outputs for the selected values
@@ -619,7 +671,10 @@ LEVEL_TEXT = ("bounded exhaustive exploration: for each of the ten selective ele
               "real element in a private directory - for LaTeXToPDF under every completion schedule of "
               "the fake converter processes - and compared with the run of the selected values alone; "
               "RunIf, MapBins and IterateBins also with tolerant selectors (raise_on_error=False, 5 "
-              "forms) whose test raises on the foreign values, for each of 74 exception classes")
+              "forms) whose test raises on the foreign values, for each of 74 exception classes; every "
+              "element also with foreign values that carry the context keys the element itself reads "
+              "(way of being unselected x documented key: %d values, lists of one and of two)"
+              % st.n_values())
 LEVEL_NOTE = ("holds for the enumerated alphabet only; pdflatex / pdftoppm are replaced by an "
               "explorer-owned fake Popen; the position of foreign values relative to outputs for selected "
               "values is measured, not judged")
@@ -627,4 +682,6 @@ TECHNIQUE = ("exhaustive enumeration of interleavings on the real elements with 
              "run(interleave(A, B)) = interleave(run(A), B): identity and order of foreign values, deep "
              "equality of outputs for selected values, directory snapshots, launched commands; the way "
              "a value is left unselected is an axis too (selector answers False / test raises an "
-             "exception of every class under a tolerant selector)")
+             "exception of every class under a tolerant selector), and so is what an unselected value "
+             "carries in its context (product of the ways of being unselected with the element's own "
+             "documented settings)")
